@@ -90,8 +90,10 @@ func (c *CredentialsStore) Load(r io.Reader) error {
 		return err
 	}
 
-	var cred Credential
 	for dec.More() {
+		// A fresh value per entry: Decode only sets the fields present in the JSON
+		// object, so a reused variable would leak the previous entry's fields.
+		var cred Credential
 		err := dec.Decode(&cred)
 		if err != nil {
 			return err
